@@ -396,18 +396,20 @@ def circuit_layer(scan, max_width, gateset="all", symbolic=False):
             off = draw(st.sampled_from(adj_q))
             return {"k": "swap", "l": scan[off], "r": scan[off + 1]}, off
         if kind == "bra2":
-            return {"k": "g", "g": "Bra", "a": draw(st.sampled_from(
-                [[0, 1], [1, 0]]))}, draw(st.sampled_from(adj_q))
+            off = draw(st.sampled_from(adj_q))
+            n = 3 if off + 1 in adj_q and draw(st.booleans()) else 2
+            return {"k": "g", "g": "Bra", "a": draw(st.lists(
+                st.integers(0, 1), min_size=n, max_size=n))}, off
         if kind == "swap":
             off = draw(st.integers(0, len(scan) - 2))
             return {"k": "swap", "l": scan[off], "r": scan[off + 1]}, off
         if kind == "ket":
-            n = draw(st.integers(1, min(2, room)))
+            n = draw(st.integers(1, min(3, room)))
             return {"k": "g", "g": "Ket", "a": draw(st.lists(
                 st.integers(0, 1), min_size=n, max_size=n))},\
                 draw(st.integers(0, len(scan)))
         if kind == "bits":
-            n = draw(st.integers(1, min(2, room)))
+            n = draw(st.integers(1, min(3, room)))
             return {"k": "g", "g": "Bits", "a": draw(st.lists(
                 st.integers(0, 0 if gateset == "tk" else 1), min_size=n,
                 max_size=n))},\
@@ -492,8 +494,10 @@ def zx_layer(scan, max_width):
             off = draw(st.sampled_from(adj_q))
             return {"k": "swap", "l": scan[off], "r": scan[off + 1]}, off
         if kind == "bra2":
-            return {"k": "g", "g": "Bra", "a": draw(st.sampled_from(
-                [[0, 1], [1, 0]]))}, draw(st.sampled_from(adj_q))
+            off = draw(st.sampled_from(adj_q))
+            n = 3 if off + 1 in adj_q and draw(st.booleans()) else 2
+            return {"k": "g", "g": "Bra", "a": draw(st.lists(
+                st.integers(0, 1), min_size=n, max_size=n))}, off
         if kind == "swap":
             off = draw(st.integers(0, len(scan) - 2))
             return {"k": "swap", "l": [1, 0], "r": [1, 0]}, off
